@@ -156,6 +156,10 @@ class Deflater:
     def restore(self, snap):
         self._z = snap
 
+    def reset(self):
+        """Drop the LZ77 context: the next message starts from an empty window (always legal for a sender)."""
+        self._z = None
+
     def compress_message(self, data: bytes, flush=None) -> bytes:
         """1. compress the whole message with DEFLATE; 2. end with an empty stored block (sync/full
         flush); 3. remove the trailing 0x00 0x00 0xff 0xff."""
